@@ -65,6 +65,28 @@ ALL = {'vx_other2': VX_OTHER2, 'vx_optfirst': VX_OPTFIRST, 'vx_simple': VX_SIMPL
 
 SPECIES = list(Species)
 
+_ORIGINAL_ORDER = {n: list(fs.items()) for n, fs in ALL.items()}
+
+
+def reregister_reordered(name: str, rng) -> bool:
+    """"Another version of the program": the field set ``name`` is defined again with the
+    same fields listed in another order (the registry accepts that: same digest)."""
+    items = list(_ORIGINAL_ORDER[name])
+    for _ in range(5):
+        rng.shuffle(items)
+        if [k for k, _ in items] != [k for k, _ in _ORIGINAL_ORDER[name]]:
+            break
+    else:
+        return False
+    ALL[name] = FieldSet(name, **dict(items))
+    return True
+
+
+def restore_registered_order() -> None:
+    for n, items in _ORIGINAL_ORDER.items():
+        if [k for k, _ in ALL[n].items()] != [k for k, _ in items]:
+            ALL[n] = FieldSet(n, **dict(items))
+
 
 # ---------------------------------------------------------------------------
 # value generators
